@@ -94,7 +94,8 @@ def handle (m : String) (j : Json) : Except String Json := do
     let r ← parseRecipe (← j.getObjVal? "recipe")
     let parts ← (← getArr j "parts").mapM (fun (v : Json) => v.getNat?)
     let fuel := (optField j "fuel").bind (fun v => v.getNat?.toOption) |>.getD 3000
-    let o := runChain fuel r parts.toList
+    let fs := (optField j "final_save").bind (fun v => v.getBool?.toOption) |>.getD true
+    let o := runChain fuel r parts.toList fs
     pure (Json.mkObj [("status", Json.str o.status), ("rows", Json.arr (o.out.map outRowJ).toArray)])
   | "l2.look_for_number" =>
     let x ← getStr j "s"
